@@ -36,11 +36,11 @@ func Register(reg *kernel.Registry) {
 	reg.Serves["C08"] = append(reg.Serves["C08"], "bsc")
 	reg.MinProbes["C09"] = []string{"update.accepted"}
 	reg.MinProbes["C08"] = []string{"recv.accepted", "recv.rejected"}
-	reg.Serves["C07"] = append(reg.Serves["C07"], "tm")
+	reg.Serves["C07"] = append(reg.Serves["C07"], "tm", "lifecycle") // lifecycle: trust anchors across a revision upgrade
 	reg.Serves["C13"] = append(reg.Serves["C13"], "tm", "bsc", "eth")
 	reg.Serves["C19"] = append(reg.Serves["C19"], "tm", "bsc", "eth")
 	reg.Serves["C14"] = append(reg.Serves["C14"], "tm", "bsc", "eth", "lifecycle") // block-stream replicas of every world
-	reg.Serves["C02"] = append(reg.Serves["C02"], "bsc", "eth") // EVM-proved receives: only at heights the installed client vouches for
+	reg.Serves["C02"] = append(reg.Serves["C02"], "bsc", "eth")                    // EVM-proved receives: only at heights the installed client vouches for
 	reg.Serves["C01"] = append(reg.Serves["C01"], "bsc", "eth")                    // counterparty-chosen sequences over the whole uint64 range, re-delivered receives
 	reg.Assumptions["C07"] = []string{
 		"the reference predicate counts a signature as valid only if it was produced by the validator's own key over the submitted header; hash collisions and signature forgery are out of scope",
